@@ -103,7 +103,9 @@ def threadify(plan: dict) -> None:
             o["fl"] = "thread"
             o.pop("cancel_after_us", None)
     k = r.random()
-    if k < 0.5:
+    if k < 0.25:
+        plan["threads"] = {"mode": "marks", "q": r.choice((0.2, 0.5, 0.9)), "p": r.choice((0.0, 0.002))}
+    elif k < 0.5:
         plan["threads"] = {"mode": "prob", "p": r.choice((0.002, 0.02, 0.2))}
     else:
         plan["threads"] = {"mode": "points", "n": r.choice((1, 2, 3, 6)), "horizon": r.choice((400, 4000, 20000))}
